@@ -90,7 +90,8 @@ Definition tree1 : disc :=
      d_ents := [ED [0%N] None; ED [1%N] None];
      d_feats := [FD [0%N] 0 T_NODEMGMT RSpecial; FD [1%N] 1 T_LOADCONTROL RClient; FD [1%N] 2 T_LOADCONTROL RServer] |}.
 Definition discovered : list op := [Connect 1; Inbound 1 (DG (NMH 1 (Some 1%N) CReply) (c_of_disc [] tree1))].
-Definition partial_f : filt := {| f_ctrl := Some (true, false); f_sel := None; f_elems := None |}.
+Definition partial_f : filt := {| f_ctrl := Some (true, false); f_sel := None; f_elems := None; f_fsel := false; f_felems := false |}.
+Definition foreign_f : filt := {| f_ctrl := Some (true, false); f_sel := None; f_elems := None; f_fsel := true; f_felems := false |}.
 Definition lsrv : faddr := A 0 [1%N] 1.
 Definition rcli : faddr := A 1 [1%N] 1.
 
@@ -99,7 +100,7 @@ Definition witnesses : list (N * list op) := [
   (S_LFBA, [Connect 1; Inbound 1 (DG (H (Some (A 1 [0%N] 0)) None (Some 1%N) None (Some CRead)) (c_of_disc [] tree1))]);
   (S_PROCESSCMD, [Connect 1; Inbound 1 (DG (H None (Some (A 0 [0%N] 0)) (Some 1%N) None (Some CRead)) (c_of_disc [] tree1))]);
   (S_EXTRACT, [Connect 1; Inbound 1 (DG (NMH 1 (Some 1%N) CRead)
-                 (c_of_disc [ {| f_ctrl := None; f_sel := None; f_elems := None |} ] tree1))]);
+                 (c_of_disc [ {| f_ctrl := None; f_sel := None; f_elems := None; f_fsel := false; f_felems := false |} ] tree1))]);
   (S_PRINT, [Connect 1; Inbound 1 (DG (NMH 1 (Some 1%N) CReply) (c_of_disc [] tree1))]);
   (S_PRINT, [Connect 1; Inbound 1 (DG (NMH 1 None CRead) (c_of_disc [] tree1))]);        (* the reply to a read without counter *)
   (S_SUBREQ, [Connect 1; Inbound 1 (DG (NMH 1 (Some 1%N) CCall) (c_of_subreq None))]);
@@ -144,14 +145,14 @@ Definition witnesses : list (N * list op) := [
   (S_UPDATELIST, [Connect 1;
                   Inbound 1 (DG (H (Some (A 1 [0%N] 0)) (Some (A 0 [0%N] 0)) (Some 1%N) (Some 1%N) (Some CReply)) (c_of_disc [] tree1));
                   Inbound 1 (DG (H (Some (A 1 [1%N] 2)) (Some (A 0 [1%N] 2)) (Some 2%N) None (Some CNotify))
-                               (c_of_list [ {| f_ctrl := Some (true, false); f_sel := Some (Some 1%N); f_elems := None |} ] []))]);
+                               (c_of_list [ {| f_ctrl := Some (true, false); f_sel := Some (Some 1%N); f_elems := None; f_fsel := false; f_felems := false |} ] []))]);
   (S_SELMATCH, [Connect 1;
                 Inbound 1 (DG (H (Some (A 1 [0%N] 0)) (Some (A 0 [0%N] 0)) (Some 1%N) (Some 1%N) (Some CReply)) (c_of_disc [] tree1));
                 Inbound 1 (DG (NMH 1 (Some 2%N) CCall)
                              (c_of_bindreq (Some {| rq_cli := Some rcli; rq_srv := Some lsrv; rq_type := Some T_LOADCONTROL |})));
                 Inbound 1 (DG (H (Some rcli) (Some lsrv) (Some 3%N) None (Some CWrite)) (c_of_list [] [None]));
                 Inbound 1 (DG (H (Some rcli) (Some lsrv) (Some 4%N) None (Some CWrite))
-                             (c_of_list [ {| f_ctrl := Some (true, false); f_sel := Some (Some 1%N); f_elems := None |} ] [Some 1%N]))])
+                             (c_of_list [ {| f_ctrl := Some (true, false); f_sel := Some (Some 1%N); f_elems := None; f_fsel := false; f_felems := false |} ] [Some 1%N]))])
 ].
 
 Definition last_obs (fx : bool) (ops : list op) : list obs :=
@@ -216,9 +217,23 @@ Example C05_nonvacuous :
      Inbound 1 (DG (NMH 1 (Some 3%N) CCall) (c_of_bindreq (Some {| rq_cli := Some rcli; rq_srv := Some lsrv; rq_type := Some T_LOADCONTROL |})));
      Inbound 1 (DG (H (Some rcli) (Some lsrv) (Some 4%N) None (Some CWrite)) (c_of_list [] [Some 1%N]));
      Inbound 1 (DG (H (Some rcli) (Some lsrv) None None (Some CWrite))
-                  (c_of_list [ {| f_ctrl := None; f_sel := Some None; f_elems := None |} ] []));
+                  (c_of_list [ {| f_ctrl := None; f_sel := Some None; f_elems := None; f_fsel := false; f_felems := false |} ] []));
      Probe 1 9] in
   map snd (snd (run init ops)) =
     [[]; []; []; []; [Out (ONotify 1 F_CONS)]; [Out (ONotify 1 F_CONS)]; [Out (OReply 1 F_DISC (Some 9%N))]] /\
   strictly_accepted (judge minit sinit (snd (run init ops))) = true.
 Proof. vm_compute. split; reflexivity. Qed.
+
+(* Filters carrying the selector of ANOTHER function: a failed partial notify (foreign selector, no item) is
+   answered with an error result (and re-read), a partial write with a foreign selector addresses every item. *)
+Example C05_foreign_selectors :
+  let ops := discovered ++
+    [Inbound 1 (DG (H (Some (A 1 [1%N] 2)) (Some (A 0 [1%N] 2)) (Some 2%N) None (Some CNotify)) (c_of_list [foreign_f] []));
+     Inbound 1 (DG (NMH 1 (Some 3%N) CCall) (c_of_bindreq (Some {| rq_cli := Some rcli; rq_srv := Some lsrv; rq_type := Some T_LOADCONTROL |})));
+     Inbound 1 (DG (H (Some rcli) (Some lsrv) (Some 4%N) None (Some CWrite)) (c_of_list [foreign_f] [Some 9%N]));
+     Inbound 1 (DG (H (Some rcli) (Some lsrv) (Some 5%N) None (Some CWrite)) (c_of_list [partial_f] [Some 1%N]))] in
+  map snd (snd (run init ops)) =
+    [[]; []; [Out (OResult 1 E_GENERAL (Some 2%N))]; []; []; [Out (OResult 1 E_GENERAL (Some 5%N))]] /\
+  strictly_accepted (judge minit sinit (snd (run init ops))) = true /\
+  strictly_accepted (judge minit sinit (snd (run_fx false init ops))) = false.
+Proof. vm_compute. repeat split; reflexivity. Qed.
